@@ -216,6 +216,7 @@ func runC15(c *core.Case) {
 		l[pos] = bad
 		what = kind
 		c.Tag("very-long-list")
+		c.Procs()
 		switch r.Intn(6) {
 		case 0:
 			do("integrate.ChangeExtendedSpatialIdsZoom", fmt.Sprintf("%d IDs, %q at %d", n, bad, pos), func() (any, error) { return integrate.ChangeExtendedSpatialIdsZoom(l, z, z) })
@@ -264,6 +265,17 @@ func runC15(c *core.Case) {
 		} else {
 			pts[r.Intn(2)] = nil
 			what = "nil-point"
+			if r.P(0.03) { // a long list (up to 2^19 + 1 points) with the nil point first, last or anywhere
+				n := []int{longLen(r), veryLongLen(r), 1 << 18, 1<<18 + 3, 1<<19 + 1}[r.Intn(5)]
+				p := vpoint()
+				pts = make([]*object.Point, n)
+				for i := range pts {
+					pts[i] = p
+				}
+				pts[[]int{0, 0, n - 1, r.Intn(n)}[r.Intn(4)]] = nil
+				c.Tag("nil-point-in-long-list")
+				c.Procs()
+			}
 			if r.Bool() {
 				do("shape.GetExtendedSpatialIdsOnPoints", "nil point", func() (any, error) { return shape.GetExtendedSpatialIdsOnPoints(pts, hz, vz) })
 			} else {
